@@ -470,6 +470,20 @@ def run_shard(spec):
                     run_c({"family": spec["family"], "port": spec["port"], "mode": mode, "keep_alive": ka,
                            "info_first": info_first, "T": 1, "R": 1}, part)
     elif p == "D":
+        # connect() asked neither for a family nor for discovery: a usage error, reported through the same exception family
+        import asyncio
+        g = env.goodwe()
+        for fam in (None, "XX", ""):
+            try:
+                asyncio.run(g.connect("inv0", 8899, fam, 0, 1, 0, False))
+                out = "returned"
+            except g.InverterError:
+                out = "InverterError"
+            except Exception as e:      # noqa
+                out = type(e).__name__
+            part.evaluations += 1
+            if out != "InverterError":
+                part.violate(f"C09/api/connect/raw-exception/{out}", f"connect(family={fam!r}, do_discover=False) ended {out}", {"part": "D0"})
         rnd = random.Random(spec["seed"])
         for i in range(spec["n"]):
             target = rnd.choice(("ET", "DT", "ES", "discover"))
@@ -490,6 +504,9 @@ def replay(case):
         vs = run_b(case["scenario"], part)
     elif p == "Bo":
         vs = run_b_overlap(case["scenario"], part)
+    elif p == "D0":
+        run_shard({"part": "D", "seed": "replay", "n": 0})
+        vs = []
     elif p == "C":
         vs = run_c(case["case"], part)
     else:
